@@ -13,7 +13,7 @@ RULE = ("seeded gen_coords runs with generated build files: in/out sphere, cylin
         "independent predicates; non-trivial = some restraint selects a generated residue; distinct = distinct event-log digests")
 ASSUMPTIONS = wa.ASSUMPTIONS + ["geometric 'in' regions are generated large enough and 'out' regions small enough to be satisfiable"]
 REAL_VS_STUB = wa.REAL_VS_STUB
-PROBES = wa.PROBES + ["distance_restraint_beyond_half_box", "restraint_selects_generated_residue", "direction_restricted_step", "direction_restricted_step_wrapped",
+PROBES = wa.PROBES + ["ring_with_side_chain", "persistence_with_distance_restraint", "resid_restart_inside_molecule", "distance_restraint_beyond_half_box", "restraint_selects_generated_residue", "direction_restricted_step", "direction_restricted_step_wrapped",
                       "distance_restraint_checked", "persistence_sampled", "cycle_checked"]
 PROFILE = {"shapes": ["linear", "linear", "linear", "ring", "ring", "comb", "single"], "maxres": 10, "n_moltypes": (1, 2),
            "n_entries": (1, 3), "max_molecules": 6, "max_count": 3, "box_modes": ["cubic", "noncubic"],
@@ -38,6 +38,13 @@ def gen_job(verif_seed, tier, index):
             rn = g.choice([x for x in names if x not in used] or names)
             used.append(rn)
             mt.update({"shape": "ring", "residues": [rn] * n, "edges": [[i, i + 1] for i in range(n - 1)] + [[0, n - 1]]})
+            if n >= 4 and g.random() < 0.35:
+                # a ring that carries one or two pendant residues (side chain): the residue numbered last is not the
+                # one that closes the ring
+                for t in range(g.randint(1, 2)):
+                    mt["residues"].append(rn)
+                    mt["edges"].append([g.randrange(1, n - 1) if t == 0 else len(mt["residues"]) - 2, len(mt["residues"]) - 1])
+                job["ring_with_side_chain"] = True
             if not any(nm == mt["name"] for nm, _ in spec["molecules"]):
                 spec["molecules"].append([mt["name"], g.randint(1, 3)])
         job["opts"].pop("density", None)
@@ -83,6 +90,28 @@ def gen_job(verif_seed, tier, index):
     job["c07_mode"] = mode
     if kinds:
         job["build_spec"] = bldgen.gen_build_spec(g, spec, box, kinds, est_size=sizes)
+    if mode == "pers" and g.random() < 0.4:
+        # the molecule with a persistence length also carries an explicit (loose, interior) distance restraint
+        for blk in job.get("build_spec") or []:
+            mt = next(m for m in spec["moltypes"] if m["name"] == blk["mol"])
+            n = len(mt["residues"])
+            if any(it["kind"] == "pers" for it in blk["items"]) and n >= 6:
+                a = 1
+                b = g.randint(a + 3, n - 2)
+                blk["items"].append({"kind": "dist", "a": a, "b": b, "d": round(0.5 * (b - a) * sizes, 3), "tol": 0.3,
+                                     "reversed": False})
+                job["persistence_with_distance_restraint"] = True
+    if mode in ("geom", "rw", "mix") and g.random() < 0.15:
+        # residue numbers that start again inside a molecule type; the restraints select by name and number
+        if jobgen.add_resid_restart(job, g) or (len(spec["restypes"]) >= 2 and jobgen.make_restart_job(job, g) is not None):
+            job["build_spec"] = bldgen.gen_build_spec(g, spec, box, [k for k in kinds if k != "dist"] or ["geom"], est_size=sizes)
+            # at least one restraint selects residues of the FIRST block (numbers that occur again in the second one)
+            for blk in job["build_spec"]:
+                mt = next(m for m in spec["moltypes"] if m["name"] == blk["mol"])
+                k = mt.get("resid_restart")
+                sel = [it for it in blk["items"] if it["kind"] in ("sphere", "cylinder", "rectangle", "rw")]
+                if k is not None and sel:
+                    sel[0].update({"resname": mt["residues"][0], "start": 1, "stop": k + 1})
     if mode == "dist" and g.random() < 0.25:
         # one long chain in a box whose edge is less than twice the restrained distance: the restrained pair is
         # nearer through a box face than inside the cell for many conformations
@@ -132,6 +161,12 @@ def gen_job(verif_seed, tier, index):
 
 def _nontrivial(job, res):
     p = res.get("probes", {})
+    if job.get("ring_with_side_chain") and p.get("cycle_checked"):
+        res["probes"]["ring_with_side_chain"] = 1
+    if job.get("persistence_with_distance_restraint") and p.get("persistence_sampled"):
+        res["probes"]["persistence_with_distance_restraint"] = 1
+    if job.get("resid_restart"):
+        res["probes"]["resid_restart_inside_molecule"] = 1
     if job.get("restraint_beyond_half_box") and p.get("distance_restraint_checked"):
         res["probes"]["distance_restraint_beyond_half_box"] = 1
     return any(p.get(k) for k in ("restraint_selects_generated_residue", "direction_restricted_step",
